@@ -211,27 +211,27 @@ add("C14", "model_checking",
 # Stages added while hardening the checks against seeded changes (DESIGN.md sections 8 and 11); appended to the claims above.
 EXTRA = {
     "C01": " Also: the same populations relabelled to dense ids 0..n-1 in all permutations; tables of 1030 / 2060 (thorough 4400) rows made of "
-           "relabelled library copies in six global row orders (reversed, youngest / oldest first, half turn, even-then-odd, pointing persons first).",
+           "relabelled library copies in six global row orders (reversed, youngest / oldest first, half turn, even-then-odd, pointing persons first); derived unit ids (fg_id, bg_id, sn_id, eg_id) supplied as data with survey-style labels in all household-block orders and rotations.",
     "C02": " Also: stacked frames that keep each household's own row labels or are labelled by p_id; A behind 4400 (9000) rows of other households "
            "and first / split across both ends / reversed and spread in tables above 1024 rows; join, sum_by_p_id and grouped_sum on 4095..8193 rows; "
            "up to 300 families with self-sufficient children.",
     "C03": " Also: every hand-written rule of EVERY validity period (back to 1985) at up to five dates of its period on typed argument alphabets "
-           "(base tuple, all single and pairwise deviations, boundary ages) through the same two-row protocol.",
+           "(base tuple, all single and pairwise deviations, boundary ages, integer alphabets by argument name: calendar years, months, days) through the same two-row protocol.",
     "C04": " Also: every name that exists only on demand (other units, automatic group sums, group sums in another unit) requested alone vs next to "
            "its own relatives; unused columns named like a rule's sibling unit / sibling group level / suffix-stripped aggregate; debug x index labels.",
     "C05": " Also: marker values (off every rounding grid) supplied and every direct consumer re-evaluated on them; supplying marker values vs "
-           "replacing the rule by a constant function; the substitution through dicts of Series and frames with other row labels.",
+           "replacing the rule by a constant function; the substitution through dicts of Series and frames with other row labels; 2 / 21 / 40 / 80 / all rule columns supplied together.",
     "C06": " Also: in-place edits of deep copies, reforms given as list / renamed / wrapped / file-path forms, replaced rules must take effect, and no "
            "mutable object may be shared between parameter groups or between two environments (same date and across 31 dates).",
-    "C07": " Also: the date argument in every documented form (date, ISO string, string with time / UTC offset, year) and function metadata vs decorator.",
+    "C07": " Also: the date argument in every documented form (date, ISO string, string with time / UTC offset, year), function metadata vs decorator, and environments built after an in-place edit of an earlier environment.",
     "C08": " Also: every rule with real conditions over the valid values of its integer table arguments (birth year x month, months, years of "
-           "contributions, household size x rent level) singly and in pairs: no KeyError / IndexError on any table.",
+           "contributions, household size x rent level) singly and in pairs: no KeyError / IndexError on any table; integer literal subscripts are judged in path mode like string keys.",
     "C09": " The grammar now has 283 057 programs on 512 inputs and includes membership and identity tests, chained comparisons, and / or on numbers "
            "used as values, arithmetic on Booleans, conversions, four-way elif chains and nested min / max.",
     "C10": " Also: all rounded rules of a date wrapped in ONE call (sorted and reversed order), scalar and integer outputs, the day before and the "
-           "1 January after every spec change.",
+           "1 January after every spec change; NaN / inf rows next to the probe values.",
     "C11": " Also: arrays of 6..4097 elements with NaN / inf / -0.0 / groups of more than 255 Booleans; pointer look-ups and sums on tables of 1023..12500 "
-           "(thorough 20011) rows x eight pointer layouts x three id labellings x three dtypes; user specs at every grouping level.",
+           "(thorough 20011) rows x eight pointer layouts x three id labellings x three dtypes; user specs at every grouping level; group ids around and above 2**24.",
     "C12": " Also: 155 / 1331 small structures side by side in ONE table (more than 99 units and 422 self-sufficient children) in four row orders x three "
            "household-id schemes, units must be the disjoint union of the blocks' units.",
     "C13": " Also: every DERIVED node (group / person-pointer aggregates, conversions) supplied with marker values in each other unit must behave exactly "
